@@ -405,16 +405,49 @@ def runs(cur, ch, n):
     return [i for i in range(len(cur) - n + 1) if cur[i:i + n] == ch * n]
 
 
-def gen_spec(rng, max_width=4, max_depth=8, exotic=0.06, max_regs=7):
+def multi_measure_prefix(rng):
+    """Three prepared qubits, ONE multi-qubit Measure(n) box, then a consumer of the list of bit
+    registers that tells its entries apart: a Swap(bit, bit) that is not the swap of the only two
+    bits, or an overriding Measure onto one of the measured bits (to_tk keeps one register index
+    per measured wire, tk.py:191-199: their order inside one Measure(n) matters only to these)."""
+    bits = tuple(rng.choice([0, 1]) for _ in range(3))
+    layers = [(("ket", bits), 0)]
+    for _ in range(rng.randint(0, 2)):
+        if rng.random() < 0.5:
+            layers.append((("gate", rng.choice(["H", "X", "H"])), rng.randrange(3)))
+        else:
+            layers.append((("gate", "CX"), rng.randrange(2)))
+    variant = rng.choice(["m3swap", "m3swap", "m2m1swap", "m2override"])
+    if variant == "m3swap":
+        layers += [(("measure", 3, 1, 0), 0), (("swap", "b", "b"), rng.randrange(2))]
+        return layers, "bbb", 3, 3
+    if variant == "m2m1swap":
+        off = rng.randrange(2)
+        layers.append((("measure", 2, 1, 0), off))          # bbq / qbb
+        layers.append((("measure", 1, 1, 0), 2 if off == 0 else 0))
+        layers.append((("swap", "b", "b"), 1 if off == 0 else 0))
+        return layers, "bbb", 3, 3
+    destructive = rng.choice([0, 1])
+    layers += [(("measure", 2, 1, 0), 0), (("swap", "b", "q"), 1), (("measure", 1, destructive, 1), 1)]
+    return layers, "bb" if destructive else "bqb", 3, 2
+
+
+def gen_spec(rng, max_width=4, max_depth=8, exotic=0.06, max_regs=7, multi=0.08):
     """A random circuit spec: preparations, post-selections, measurements, discards, swaps,
     gates, scalars and classical gates at arbitrary depths; 0-4 wires at every depth.
     `exotic` = share of boxes outside the exportable set (Bits with a 1, Ry, CU1, CRx,
-    Controlled(T), daggered S/T)."""
-    dom = rng.choice(["", "", "", "q", "q", "qq", "b", "qb", "bq", "qqq"])
-    cur, layers = dom, []
-    n_q = dom.count("q")
-    n_b = dom.count("b")
-    depth = rng.randint(1, max_depth)
+    Controlled(T), daggered S/T); `multi` = share of circuits that start with
+    `multi_measure_prefix` (and go on at random for up to three more layers)."""
+    if rng.random() < multi:
+        dom = ""
+        layers, cur, n_q, n_b = multi_measure_prefix(rng)
+        depth = rng.randint(0, 3)
+    else:
+        dom = rng.choice(["", "", "", "q", "q", "qq", "b", "qb", "bq", "qqq"])
+        cur, layers = dom, []
+        n_q = dom.count("q")
+        n_b = dom.count("b")
+        depth = rng.randint(1, max_depth)
     for _ in range(depth):
         opts = []
         room = max_width - len(cur)
@@ -744,3 +777,275 @@ def gen_tk(rng, measure=False, swap=True, max_qubits=4, max_depth=8):
                 getattr(circ, op)(a, b)
                 desc.append("%s(%d,%d)" % (op, a, b))
     return circ, ".".join(desc)
+
+
+# --------------------------------------------------------------------------- from_tk (driver tokens)
+
+def raw_commands(tk_circ):
+    """[(op name, [parameters as exact Fractions, unreduced], [qubit index[0]], [bit index[0]])] in
+    get_commands() order: what from_tk reads of every command (tk.py:278-319)."""
+    out = []
+    for cmd in tk_circ.get_commands():
+        out.append((cmd.op.type.name, [frac(p) for p in cmd.op.params],
+                    [q.index[0] for q in cmd.qubits], [b.index[0] for b in cmd.bits]))
+    return out
+
+
+def pbox_tokens(box):
+    from discopy.quantum.circuit import Swap
+    from discopy.quantum.gates import Bits
+    if isinstance(box, Swap):
+        return "swap"
+    if isinstance(box, Bits):
+        assert box.is_dagger
+        return "gate unbits%s %d 0" % ("".join(map(str, box.bitstring)), len(box.bitstring))
+    return "gate %s %d %d" % (box.name, len(box.dom), len(box.cod))
+
+
+def tkin_tokens(t, cmds=None):
+    """The driver's `fromtk` argument for a discopy tk.Circuit `t` (tket parameters must be
+    multiples of 1/8: numerators over 16 are even)."""
+    cmds = raw_commands(t) if cmds is None else cmds
+    toks = [str(t.n_qubits), str(len(t.bits)), "1" if t.scalar != 1 else "0", str(len(cmds))]
+    for name, params, qs, bs in cmds:
+        if params:
+            num = params[0] * 16
+            assert num.denominator == 1 and num.numerator % 2 == 0, params
+            par = str(num.numerator)
+        else:
+            par = "N"
+        toks += [name, par, str(len(qs))] + [str(q) for q in qs] + [str(len(bs))] + [str(b) for b in bs]
+    ps = [(int(k), int(v)) for k, v in t.post_selection.items()]
+    toks.append(str(len(ps)))
+    for k, v in ps:
+        toks += [str(k), str(v)]
+    pp = t.post_processing
+    toks += [str(len(pp.dom)), str(len(pp.cod)), str(len(pp.boxes))]
+    for box, off in zip(pp.boxes, pp.offsets):
+        toks += [pbox_tokens(box), str(off)]
+    return " ".join(toks)
+
+
+def ty_str(t):
+    return "".join("q" if x.name == "qubit" else "b" if x.name == "bit" else "?" for x in t)
+
+
+def imported_box_tokens(box):
+    """Tokens of a box of an imported circuit, in the syntax the driver prints (`pTBox`)."""
+    from discopy.quantum import gates as G
+    from discopy.quantum.circuit import Measure, Discard, Swap
+    if isinstance(box, G.Ket):
+        return "ket " + _bits_tok(box.bitstring)
+    if isinstance(box, G.Bra):
+        return "bra " + _bits_tok(box.bitstring)
+    if isinstance(box, G.Bits):
+        if box.is_dagger:      # only inside a post-processing: printed as the classical box it is there
+            return "cgate unbits%s %d 0" % ("".join(map(str, box.bitstring)), len(box.bitstring))
+        return "bits 0 " + _bits_tok(box.bitstring)
+    if isinstance(box, Swap):
+        return "swap %s %s" % (ty_str(box.left), ty_str(box.right))
+    if isinstance(box, Measure):
+        return "measure %d %d %d" % (box.n_qubits, 1 if box.destructive else 0, 1 if box.override_bits else 0)
+    if isinstance(box, Discard):
+        return "discard " + _ty_tok(ty_str(box.dom))
+    if isinstance(box, G.Scalar):
+        return "scalar 0 %d" % (1 if box.is_mixed else 0)
+    if isinstance(box, (G.Rx, G.Rz, G.CRz)):
+        num = Fraction(float(box.phase)) * 16
+        assert num.denominator == 1, box
+        return "rot %s %d" % (type(box).__name__, num.numerator)
+    if isinstance(box, G.ClassicalGate):
+        return "cgate %s %d %d" % (box.name, len(box.dom), len(box.cod))
+    if isinstance(box, G.QuantumGate):
+        return "gate %s %d" % (box.name, len(box.dom))
+    return "other %s %s" % (_ty_tok(ty_str(box.dom)), _ty_tok(ty_str(box.cod)))
+
+
+def import_tokens(d):
+    """Canonical form of an imported circuit: everything from_tk decides (domain, codomain, boxes,
+    offsets), as the driver's `fromtk` answer."""
+    return "dom=%s cod=%s boxes=%s" % (
+        ty_str(d.dom), ty_str(d.cod),
+        ";".join("%s@%d" % (imported_box_tokens(b).replace(" ", "_"), o) for b, o in zip(d.boxes, d.offsets)))
+
+
+def gen_tk_ps(rng, max_qubits=3, max_depth=8, late_gate=0.0):
+    """A random discopy tk.Circuit built directly with pytket calls, with post-selected bits: every
+    bit is measured at most once, a post-selected bit exactly once; with probability `late_gate` a
+    gate is applied to a qubit after its post-selected measurement (the shape of finding F33).
+    Returns (circuit, description, has_late_gate)."""
+    from discopy.quantum import tk as dtk
+    n = rng.randint(1, max_qubits)
+    n_bits = rng.randint(1, n)
+    n_ps = rng.randint(0, min(2, n_bits))
+    ps_bits = sorted(rng.sample(range(n_bits), n_ps))
+    ps = {b: rng.randint(0, 1) for b in ps_bits}
+    circ = dtk.Circuit(n, n_bits, post_selection=dict(ps))
+    desc = ["tk.Circuit(%d, %d, post_selection=%r)" % (n, n_bits, ps)]
+    free_bits = list(range(n_bits))
+    rng.shuffle(free_bits)
+    done = set()          # qubits measured into a post-selected bit
+    want_late = rng.random() < late_gate
+    late = False
+    depth = rng.randint(1, max_depth)
+    for step in range(depth + len(free_bits)):
+        live = [q for q in range(n) if q not in done or want_late]
+        if not live:
+            break
+        r = rng.random()
+        if free_bits and (r < 0.25 or step >= depth):
+            cands = [q for q in range(n) if q not in done]
+            if not cands:
+                break
+            q, b = rng.choice(cands), free_bits.pop()
+            circ.Measure(q, b)
+            desc.append("Measure(%d, %d)" % (q, b))
+            if b in ps:
+                done.add(q)
+        elif r < 0.6 or len(live) < 2:
+            q = rng.choice(live)
+            if rng.random() < 0.3:
+                op, k = rng.choice(["Rx", "Rz"]), rng.randint(-16, 40)
+                getattr(circ, op)(k / 8, q)
+                desc.append("%s(%d/8, %d)" % (op, k, q))
+            else:
+                op = rng.choice(TK_OPS_1)
+                getattr(circ, op)(q)
+                desc.append("%s(%d)" % (op, q))
+            late = late or q in done
+        else:
+            a, b = rng.sample(live, 2)
+            op = rng.choice(["CX", "CZ", "SWAP", "CY", "CH"])
+            getattr(circ, op)(a, b)
+            desc.append("%s(%d, %d)" % (op, a, b))
+            late = late or a in done or b in done
+    for b in [b for b in ps if b in free_bits]:     # a post-selected bit is measured exactly once
+        cands = [q for q in range(n) if q not in done]
+        if not cands:
+            return gen_tk_ps(rng, max_qubits, max_depth, late_gate)
+        q = rng.choice(cands)
+        circ.Measure(q, b)
+        desc.append("Measure(%d, %d)" % (q, b))
+        done.add(q)
+    return circ, ".".join(desc), late
+
+
+def gate_after_postselected_measure(cmds, ps):
+    """Some command touches a qubit after that qubit was measured into a post-selected bit (the
+    shape on which moving the post-selection to the end of the circuit, tk.py:320-322 and
+    336-339, changes the meaning: finding F33)."""
+    done = set()
+    for name, _, qs, bs in cmds:
+        if any(q in done for q in qs):
+            return True
+        if name == "Measure" and bs[0] in ps:
+            done.add(qs[0])
+    return False
+
+
+def roundtrip_failure(a, b):
+    """`FromToRoundTrip` on one circuit: `a` = canon(c), `b` = canon(from_tk(to_tk(c))) (both parsed
+    `tkspec` fields).  None if there are injective namings of a's qubit / bit ids by b's under which
+    the commands other than post-selected measurements are the same list, the post-selected
+    measurements are the same multiset (they come last in b), the post-selections agree, the
+    classical boxes read the same values and the bit wires leave in the same order."""
+    def split(sp):
+        psm = [c for c in sp["cmds"] if c[0] == "Measure" and c[3][0] in sp["ps"]]
+        rest = [c for c in sp["cmds"] if not (c[0] == "Measure" and c[3][0] in sp["ps"])]
+        return rest, psm
+    ga, pa = split(a)
+    gb, pb = split(b)
+    if b["cmds"][len(gb):] != pb:
+        return "a post-selected measurement of the import is not at the end"
+    if len(ga) != len(gb) or len(pa) != len(pb):
+        return "number of commands"
+    rq, rb = {}, {}
+
+    def unify(tab, x, y):
+        if x in tab:
+            return tab[x] == y
+        if y in tab.values():
+            return False
+        tab[x] = y
+        return True
+    for c, w in zip(gb, ga):
+        if (c[0], c[1], len(c[2]), len(c[3])) != (w[0], w[1], len(w[2]), len(w[3])):
+            return "command op"
+        if not all(unify(rq, x, y) for x, y in zip(w[2], c[2])):
+            return "qubit naming not injective"
+        if not all(unify(rb, x, y) for x, y in zip(w[3], c[3])):
+            return "bit naming not injective"
+    todo = list(pb)
+    loose = []
+    for c in pa:
+        val = a["ps"][c[3][0]]
+        if c[2][0] in rq:
+            hit = [d for d in todo if d[2][0] == rq[c[2][0]] and b["ps"][d[3][0]] == val]
+            if not hit:
+                return "post-selected measurement"
+            todo.remove(hit[0])
+            if not unify(rb, c[3][0], hit[0][3][0]):
+                return "bit naming not injective"
+        else:
+            loose.append(val)
+    if sorted(loose) != sorted(b["ps"][d[3][0]] for d in todo) or any(d[2][0] in rq.values() for d in todo):
+        return "post-selected measurement"
+    if len(a["ps"]) != len(b["ps"]):
+        return "post_selection"
+
+    def same(x, y):
+        if x[0] == "o" or y[0] == "o":
+            return tuple(x) == tuple(y)
+        return unify(rb, x[1], y[1])
+    if len(a["cg"]) != len(b["cg"]):
+        return "classical boxes"
+    for (n1, i1), (n2, i2) in zip(a["cg"], b["cg"]):
+        if n1 != n2 or len(i1) != len(i2) or not all(same(x, y) for x, y in zip(i1, i2)):
+            return "inputs of classical box %s" % n1
+    if len(a["bw"]) != len(b["bw"]) or not all(same(x, y) for x, y in zip(a["bw"], b["bw"])):
+        return "output wires"
+    return None
+
+
+def gen_tk_malformed(rng):
+    """A discopy tk.Circuit from_tk cannot import as it stands (or only by accident): returns
+    (circuit, 'kind: description')."""
+    import pytket as tk
+    from discopy.quantum import tk as dtk
+    from discopy.quantum.circuit import Id, Swap, bit
+    kind = rng.choice(["unsupported", "three_qubit", "pp_width", "ps_key", "ps_twice"])
+    n = rng.randint(2, 3)
+    if kind == "unsupported":
+        base, desc = gen_tk(rng, max_qubits=3, max_depth=4)
+        op = rng.choice(["Ry", "Sdg", "Tdg", "V", "CU1", "CRx", "ZZMax"])
+        q = rng.randrange(base.n_qubits)
+        if op in ("Ry",):
+            base.Ry(0.25, q)
+        elif op in ("CU1", "CRx", "ZZMax"):
+            if base.n_qubits < 2:
+                base.add_blank_wires(1)
+            args = ([0.25] if op != "ZZMax" else []) + [0, 1]
+            getattr(base, op)(*args)
+        else:
+            getattr(base, op)(q)
+        return dtk.Circuit.upgrade(base), "%s: %s.%s" % (kind, desc, op)
+    if kind == "three_qubit":
+        op = rng.choice(["CCX", "CSWAP"])
+        qs = rng.sample(range(3), 3)
+        base = tk.Circuit(3).H(qs[0])
+        getattr(base, op)(*qs)
+        return dtk.Circuit.upgrade(base), "%s: Circuit(3).H(%d).%s%r" % (kind, qs[0], op, tuple(qs))
+    if kind == "pp_width":
+        k = rng.choice([1, 3])
+        pp = Swap(bit, bit) @ Id(bit ** k) if k == 1 else Id(bit) @ Swap(bit, bit) @ Id(bit)
+        scalar = rng.choice([None, 0.5])
+        t = dtk.Circuit(n, 2, scalar=scalar, post_processing=pp).H(0).Measure(0, 1).Measure(1, 0)
+        return t, "%s: Circuit(%d, 2, scalar=%r, post_processing=%s).H(0).Measure(0, 1).Measure(1, 0)" % (kind, n, scalar, pp)
+    if kind == "ps_key":
+        keys = {rng.randint(2, 6): rng.randint(0, 1) for _ in range(rng.randint(1, 3))}
+        t = dtk.Circuit(n, 2, post_selection=dict(keys)).X(1).Measure(1, rng.randint(0, 1))
+        return t, "%s: Circuit(%d, 2, post_selection=%r).X(1).Measure(1, *)" % (kind, n, keys)
+    b = rng.randint(0, 1)
+    t = dtk.Circuit(n, 2, post_selection={b: 1}).H(0).Measure(0, b).Measure(1, b).Measure(0, 1 - b)
+    return t, "%s: Circuit(%d, 2, post_selection={%d: 1}).H(0).Measure(0, %d).Measure(1, %d).Measure(0, %d)" % (
+        kind, n, b, b, b, 1 - b)
